@@ -1,5 +1,6 @@
 """Property -> rules table. Each rule callable: (prog, tier, repo) -> [RuleResult]."""
 from .rules import traversal_instances as TI
+from .rules import gate, lookup_unwrap
 
 PROPERTIES = {}
 
@@ -35,8 +36,11 @@ prop('C02', COMMON +
 
 prop('C06', COMMON +
      'TRAVERSAL/SIBLING: the type checker and the scope analysis visit every sub-expression, block, pattern and '
-     'annotation of a module (a child that is never visited cannot be rejected).',
-     [TI.make(['T-chk', 'T-ssa'])])
+     'annotation of a module (a child that is never visited cannot be rejected). GATE: every lowering step in the '
+     'compile entry point is dominated by the no-errors edge of ErrorSet::has_errors(), tested after parsing and '
+     'checking on the same ErrorSet, and nobody else calls lowering. ERRSET-SINK: every public report method '
+     'unconditionally inserts into the set has_errors() tests.',
+     [gate.run_gate, gate.run_errset, TI.make(['T-chk', 'T-ssa'])])
 
 prop('C08', COMMON +
      'TRAVERSAL/SIBLING: the pretty-printer reads every expression, pattern, annotation, identifier and literal slot of '
@@ -50,8 +54,11 @@ prop('C09', COMMON +
 prop('C11', COMMON +
      'TRAVERSAL/SIBLING(T-gc): the PStr-bearing fields reachable from Module<Arc<Type>> (type walk over the ADT table) '
      'are all projected by the GC marker family. Decides only that every string slot is visited by the marker; '
-     'use-after-reclaim across GC schedules and root-set completeness are not decided.',
-     [TI.make(['T-gc'])],
+     'use-after-reclaim across GC schedules and root-set completeness are not decided. LOOKUP-UNWRAP: every '
+     'unwrap of a lookup into a ServerState map is dominated by a successful lookup of the same key in a map whose key '
+     'set is included (helper summaries computed to a fixpoint; no inclusion for `errors`). STATE-WRITERS: only the '
+     'server_state module mutates those maps.',
+     [TI.make(['T-gc']), lookup_unwrap.run, lookup_unwrap.run_writers],
      ['A-11.1: a field read by the marker family is actually passed to Heap::mark (read, not checked)',
       'A-11.2: every PStr held in parsed_modules/global_cx/errors also occurs in some checked module'])
 
